@@ -8,8 +8,11 @@
 //!   through one of its public constructors (all of them are swept), for the identifier-generic
 //!   components under the identifiers `Global`, `A`, `B` with sibling instances of other
 //!   identifiers initialised in the same `State` and the `MutationRate` / `MutationStrength`
-//!   states adapted through the state; it is run (`init`, `require`, `execute`) on a prepared
-//!   `State` (`Populations`, seeded `Random`); the constructor arguments, the populations before
+//!   states adapted through the state; the populations of the crossovers contain duplicates
+//!   (identical adjacent parents, copies across pairs, converged populations: `Raw::pat`) and, for
+//!   the n-point crossover, individuals of unequal length (`Raw::lens`); the mutants of the DE
+//!   crossovers contain duplicates and copies of their bases (`Raw::same_base`); it is run (`init`,
+//!   `require`, `execute`) on a prepared `State` (`Populations`, seeded `Random`); the constructor arguments, the populations before
 //!   and after and the parameter states read back are recorded in the projections described in
 //!   `spec/Variation.tla`.  Which parameters the execution has to obey is derived by the spec.
 //!
@@ -419,6 +422,14 @@ struct Raw {
     adapt: Vec<Adapt>,
     /// real populations drawn from `LADDER` instead of the box [-4, 12)
     ext: bool,
+    /// crossovers: individual `j` is a copy of individual `pat[j] <= j` (`pat[j] == j`: an
+    /// individual of its own); empty = no duplicates
+    pat: Vec<usize>,
+    /// n-point crossover: length of individual `j` (of those that are not copies); empty = every
+    /// individual has the problem dimension
+    lens: Vec<usize>,
+    /// DE crossovers: every base individual is identical to its mutant (a mutation without effect)
+    same_base: bool,
 }
 
 impl Raw {
@@ -432,7 +443,8 @@ impl Raw {
             self.adapt.iter().map(|a| json!({"id": a.id, "w": a.w, "rate": a.rate, "st": a.st})).collect();
         json!({"c": self.c, "ctor": self.ctor, "id": self.id, "seed": self.seed, "n": self.n, "dim": self.dim,
                "np": self.np, "rate": self.rate, "p": self.p, "both": self.both, "strength": self.strength,
-               "st": self.st, "sibs": sibs, "adapt": adapt, "ext": self.ext})
+               "st": self.st, "sibs": sibs, "adapt": adapt, "ext": self.ext, "pat": self.pat, "lens": self.lens,
+               "same_base": self.same_base})
     }
     fn from_json(v: &Value) -> Self {
         let c = v["c"].as_str().unwrap().to_string();
@@ -475,6 +487,9 @@ impl Raw {
                 })
                 .collect(),
             ext: v.get("ext").and_then(|x| x.as_bool()).unwrap_or(false),
+            pat: us(&v.get("pat").map(ints).unwrap_or_default()),
+            lens: us(&v.get("lens").map(ints).unwrap_or_default()),
+            same_base: v.get("same_base").and_then(|x| x.as_bool()).unwrap_or(false),
             c,
         }
     }
@@ -720,7 +735,14 @@ fn close(x: f64, y: f64, scale: f64) -> bool {
 fn act_json(raw: &Raw, pin: Value, base: Value) -> Value {
     let c = raw.c.as_str();
     let ctor = raw.ctor.as_str();
-    let nrel = if 1 <= raw.np && raw.np < raw.dim as i64 { 0 } else { 1 };
+    // the shortest individual bounds the number of cuts (= dim unless the population is ragged)
+    let min_len = match pin.as_array() {
+        Some(rows) if c == "NPointCrossover" && !rows.is_empty() => {
+            rows.iter().map(|x| x.as_array().map(|g| g.len()).unwrap_or(0)).min().unwrap()
+        }
+        _ => raw.dim,
+    };
+    let nrel = if 1 <= raw.np && raw.np < min_len as i64 { 0 } else { 1 };
     let has_rate = has_id(c) || is_cross(c) || matches!(c, "DEBinomialCrossover" | "DEExponentialCrossover");
     let pr = if matches!(ctor, "new_dev" | "new_bound" | "new_full" | "new_uniform_full") {
         NOVAL
@@ -765,6 +787,15 @@ fn res_json(
 ) -> Value {
     json!({"k": k, "out": out, "base": base, "h": h, "pred": pred, "pred2": pred2, "reg": reg, "mag": mag,
            "built": built})
+}
+
+/// The population with the duplicates of `raw.pat`: individual `j` is `own[pat[j]]`.
+fn with_copies<T: Clone>(raw: &Raw, own: Vec<T>) -> Vec<T> {
+    if raw.pat.is_empty() {
+        return own;
+    }
+    assert_eq!(raw.pat.len(), own.len());
+    raw.pat.iter().map(|&k| own[k].clone()).collect()
 }
 
 fn random_perm(r: &mut ChaCha8Rng, d: usize) -> Vec<usize> {
@@ -873,11 +904,14 @@ fn exec_comp(raw: &Raw) -> (Value, Value) {
         }
         "NPointCrossover" | "UniformCrossover" | "CycleCrossover" => {
             let problem = PermVar { dim: d };
-            let pop: Vec<Vec<usize>> = if raw.c == "CycleCrossover" {
+            // permutations / position-labelled genes 10 j + c (lengths <= 9: labels stay distinct)
+            let len = |j: usize| raw.lens.get(j - 1).copied().unwrap_or(d);
+            let own: Vec<Vec<usize>> = if raw.c == "CycleCrossover" {
                 (0..n).map(|_| random_perm(&mut r, d)).collect()
             } else {
-                (1..=n).map(|j| (1..=d).map(|c| 10 * j + c).collect()).collect()
+                (1..=n).map(|j| (1..=len(j)).map(|c| 10 * j + c).collect()).collect()
             };
+            let pop = with_copies(raw, own);
             let o = run_comp(
                 &problem,
                 raw,
@@ -892,7 +926,7 @@ fn exec_comp(raw: &Raw) -> (Value, Value) {
         }
         "ArithmeticCrossover" => {
             let problem = RealVar { dim: d, lo: -4.0, hi: 12.0 };
-            let pop = real_pop(&mut r, n, d, raw.ext);
+            let pop = with_copies(raw, real_pop(&mut r, n, d, raw.ext));
             let o = run_comp(
                 &problem,
                 raw,
@@ -905,7 +939,8 @@ fn exec_comp(raw: &Raw) -> (Value, Value) {
             };
             let tag = |x: &[f64]| pop.iter().position(|p| same(p, x)).map(|j| j as i64 + 1).unwrap_or(0);
             let out: Vec<Vec<i64>> = o.top.iter().map(|x| vec![tag(x); x.len()]).collect();
-            let pin: Vec<Vec<i64>> = (1..=n).map(|j| vec![j as i64; d]).collect();
+            // P-tag: bit-identical individuals get the same tag (the least index)
+            let pin: Vec<Vec<i64>> = pop.iter().map(|x| vec![tag(x); d]).collect();
             let npairs = n / 2;
             let mut pred = Vec::new();
             let mut pred2 = Vec::new();
@@ -976,7 +1011,8 @@ fn exec_comp(raw: &Raw) -> (Value, Value) {
             let lab = |off: usize| -> Vec<Vec<f64>> {
                 (1..=n).map(|j| (1..=d).map(|c| (100 * j + off + c) as f64).collect()).collect()
             };
-            let (mutants, bases) = (lab(0), lab(50));
+            let mutants = with_copies(raw, lab(0));
+            let bases = if raw.same_base { mutants.clone() } else { lab(50) };
             let o = run_comp(
                 &problem,
                 raw,
@@ -1025,6 +1061,31 @@ fn other_rate(r: &mut ChaCha8Rng, own: f64) -> f64 {
     gen_prob(r, true)
 }
 
+/// A copy pattern (`Raw::pat`) for `n >= 2` individuals.  `kind` 0: identical adjacent parents
+/// (every pair with probability 1/2, at least one pair); 1: a converged population (all copies of
+/// one individual); 2: selection with replacement from a pool of about n/2 individuals (copies
+/// inside and across pairs).
+fn gen_pat(r: &mut ChaCha8Rng, n: usize, kind: usize) -> Vec<usize> {
+    let mut class: Vec<usize> = (0..n).collect();
+    match kind % 3 {
+        0 => {
+            let pairs = n / 2;
+            let sure = r.gen_range(0..pairs);
+            for m in 0..pairs {
+                if m == sure || r.gen_bool(0.5) {
+                    class[2 * m + 1] = class[2 * m];
+                }
+            }
+        }
+        1 => class.iter_mut().for_each(|x| *x = 0),
+        _ => {
+            let pool = (n + 1) / 2;
+            class.iter_mut().for_each(|x| *x = r.gen_range(0..pool));
+        }
+    }
+    (0..n).map(|j| (0..=j).find(|&i| class[i] == class[j]).unwrap()).collect()
+}
+
 /// A random case for component `c`, built through the `k`-th of its constructors (round robin);
 /// `edge = Some(k)` asks for an NPointCrossover whose number of points lies outside 1..dim-1
 /// (0, dim, dim + 1 in turn).
@@ -1046,6 +1107,22 @@ fn gen_raw(c: &str, r: &mut ChaCha8Rng, edge: Option<usize>, k: usize) -> Raw {
         sibs: vec![],
         adapt: vec![],
         ext: false,
+        pat: vec![],
+        lens: vec![],
+        same_base: false,
+    };
+    // crossovers: in turn a population of distinct individuals of the problem dimension, one with
+    // duplicates, (n-point: a ragged one, a ragged one with duplicates; others: duplicates, distinct)
+    let variant = (k / cts.len()) % 4;
+    let kind = k / (4 * cts.len());
+    let is_dex = matches!(c, "DEBinomialCrossover" | "DEExponentialCrossover");
+    let (dup, ragged) = match (is_cross(c) || is_dex, c == "NPointCrossover", variant) {
+        (false, _, _) | (_, _, 0) => (false, false),
+        (_, _, 1) => (true, false),
+        (_, true, 2) => (false, true),
+        (_, true, _) => (true, true),
+        (_, false, 2) => (true, false),
+        _ => (false, false),
     };
     match c {
         "NormalMutation" | "UniformMutation" | "PartialRandomSpread" => {
@@ -1070,7 +1147,31 @@ fn gen_raw(c: &str, r: &mut ChaCha8Rng, edge: Option<usize>, k: usize) -> Raw {
                 raw.rate = 1.0;
                 raw.n = r.gen_range(2..=5);
             } else {
-                raw.np = r.gen_range(1..raw.dim as i64);
+                if dup || ragged {
+                    raw.n = r.gen_range(2..=6);
+                }
+                let mut min_len = raw.dim;
+                if ragged {
+                    let (lo, hi) = (raw.dim.saturating_sub(2).max(2), (raw.dim + 2).min(9));
+                    raw.lens = (0..raw.n).map(|_| r.gen_range(lo..=hi)).collect();
+                    // at least one pair of unequal parents
+                    let m = r.gen_range(0..raw.n / 2);
+                    if raw.lens[2 * m] == raw.lens[2 * m + 1] {
+                        raw.lens[2 * m] = if raw.lens[2 * m] < hi { raw.lens[2 * m] + 1 } else { lo };
+                    }
+                    min_len = *raw.lens.iter().min().unwrap();
+                }
+                if dup {
+                    raw.pat = gen_pat(r, raw.n, kind);
+                    if ragged && r.gen_bool(0.5) {
+                        // keep the pair of unequal parents: copy only among the other individuals
+                        raw.pat[0] = 0;
+                        raw.pat[1] = 1;
+                        raw.lens[0] = min_len;
+                        raw.lens[1] = min_len + 1;
+                    }
+                }
+                raw.np = r.gen_range(1..min_len as i64);
                 raw.rate = gen_prob(r, false);
             }
         }
@@ -1079,6 +1180,10 @@ fn gen_raw(c: &str, r: &mut ChaCha8Rng, edge: Option<usize>, k: usize) -> Raw {
             raw.both = r.gen_bool(0.5);
             raw.rate = gen_prob(r, false);
             raw.ext = c == "ArithmeticCrossover" && r.gen_bool(0.5);
+            if dup {
+                raw.n = r.gen_range(2..=6);
+                raw.pat = gen_pat(r, raw.n, kind);
+            }
         }
         "DEMutation" => {
             raw.dim = r.gen_range(1..=5);
@@ -1090,6 +1195,14 @@ fn gen_raw(c: &str, r: &mut ChaCha8Rng, edge: Option<usize>, k: usize) -> Raw {
         "DEBinomialCrossover" | "DEExponentialCrossover" => {
             raw.dim = r.gen_range(1..=6);
             raw.rate = gen_prob(r, false);
+            if dup {
+                // duplicates among the mutants, and / or mutants identical to their bases
+                raw.n = r.gen_range(2..=6);
+                raw.same_base = kind % 3 != 0;
+                if kind % 3 != 1 {
+                    raw.pat = gen_pat(r, raw.n, kind / 3);
+                }
+            }
         }
         other => panic!("unknown component {other}"),
     }
@@ -1135,10 +1248,22 @@ fn gen_raw(c: &str, r: &mut ChaCha8Rng, edge: Option<usize>, k: usize) -> Raw {
 
 fn gen_fn(r: &mut ChaCha8Rng, maxlen: usize) -> Value {
     let op = *["circular_swap", "circular_swap2", "translocate_slice", "translocate_slice2", "multi_point",
-               "uniform", "cycle", "arith_x"]
+               "uniform", "cycle", "arith_x", "arithmetic"]
         .choose(r)
         .unwrap();
     let n = r.gen_range(2..=maxlen);
+    // pair helpers: every second call on parents of unequal length (second parent of length m)
+    let m = if r.gen_bool(0.5) {
+        n
+    } else {
+        let m = r.gen_range(2..maxlen);
+        if m >= n {
+            m + 1
+        } else {
+            m
+        }
+    };
+    let (lo, hi) = (n.min(m), n.max(m));
     if op == "arith_x" {
         // vectors of extreme genes (ranks in LADDER) with an alpha index per position; the ends of
         // the alpha range and equal / opposite genes are over-represented
@@ -1178,15 +1303,24 @@ fn gen_fn(r: &mut ChaCha8Rng, maxlen: usize) -> Value {
             act["i"] = json!(i);
         }
         "multi_point" => {
-            let k = r.gen_range(1..n);
+            // 1 <= number of cuts < both lengths, cuts inside the shorter parent, in any order
+            let k = r.gen_range(1..lo);
             act["p"] = json!((1..=n).map(|j| 100 + j).collect::<Vec<_>>());
-            act["q"] = json!((1..=n).map(|j| 200 + j).collect::<Vec<_>>());
-            act["ix"] = json!(random_perm(r, n)[..k].to_vec());
+            act["q"] = json!((1..=m).map(|j| 200 + j).collect::<Vec<_>>());
+            act["ix"] = json!(random_perm(r, lo)[..k].to_vec());
         }
         "uniform" => {
+            // the mask covers both parents (sometimes more) and swaps only positions both have
+            let len = hi + r.gen_range(0..3) / 2;
             act["p"] = json!((1..=n).map(|j| 100 + j).collect::<Vec<_>>());
-            act["q"] = json!((1..=n).map(|j| 200 + j).collect::<Vec<_>>());
-            act["ix"] = json!((0..n).map(|_| r.gen_range(0..=1)).collect::<Vec<i64>>());
+            act["q"] = json!((1..=m).map(|j| 200 + j).collect::<Vec<_>>());
+            act["ix"] = json!((0..len).map(|j| if j < lo { r.gen_range(0..=1) } else { 0 }).collect::<Vec<i64>>());
+        }
+        "arithmetic" => {
+            // small integers and alphas k/4: exact in f64
+            act["p"] = json!((0..n).map(|_| r.gen_range(-8..=8)).collect::<Vec<i64>>());
+            act["q"] = json!((0..m).map(|_| r.gen_range(-8..=8)).collect::<Vec<i64>>());
+            act["ix"] = json!((0..hi).map(|_| r.gen_range(0..=4)).collect::<Vec<i64>>());
         }
         _ => act["q"] = json!(random_perm(r, n)),
     }
